@@ -162,3 +162,18 @@ PROPS["C20"] = dict(
     assumptions=["times and pattern timestep are integers"],
     rule="bounded: random tables / example networks; distinct = distinct (metric, shape) or (network, check) pairs",
 )
+
+PROPS["C19"] = dict(
+    level="proof",
+    explanation="_split_or_break_pipe (the body of split_pipe and break_pipe) is executed symbolically from the real source for a pipe without vertices in "
+                "every (split/break, side, end-node kinds incl. reservoir ends, check valve, return_copy) case: total length preserved with the requested "
+                "fraction on the requested side, junction elevation and coordinates at the fraction, new pipe copies diameter/roughness/minor loss and has "
+                "no check valve, split shares one junction and break uses two, connectivity and usage records moved, every other element untouched, the "
+                "input model untouched with return_copy, refused requests (name clash, not a pipe, fraction outside [0,1]) change nothing. Bounded: pipes "
+                "with vertices on random polylines, hydraulics before/after a split on Net1/Net3, skeletonize on example networks x thresholds x options "
+                "(sources/pumps/valves/control elements kept, total demand per time conserved, skeleton map a partition).",
+    trusted_base=["WaterNetworkModel.add_junction/add_pipe/get_node/get_link (C14)", "copy.deepcopy"],
+    not_decided=["hydraulic equivalence of a split for every network (bounded by simulation only)", "skeletonize beyond the listed networks; networks with quality sources are outside the bounded scope (pre-survey finding 20)"],
+    assumptions=[],
+    rule="bounded: random polylines / listed networks; distinct = distinct parameter tuples",
+)
